@@ -1,4 +1,5 @@
 use std::mem::{swap, take};
+use std::sync::atomic::{AtomicBool, Ordering};
 use std::sync::Arc;
 
 use cas_client::Client;
@@ -71,6 +72,10 @@ pub struct FileUploadSession {
 
     // Internal worker
     xorb_upload_tasks: Mutex<JoinSet<Result<()>>>,
+
+    /// Set once a xorb upload of this session has failed.  The session shard may then name xorbs that are not
+    /// in the store, so the session can no longer register data or finalize.
+    xorb_upload_failed: AtomicBool,
 }
 
 // Constructors
@@ -128,6 +133,7 @@ impl FileUploadSession {
             current_session_data: Mutex::new(DataAggregator::default()),
             deduplication_metrics: Mutex::new(DeduplicationMetrics::default()),
             xorb_upload_tasks: Mutex::new(JoinSet::new()),
+            xorb_upload_failed: AtomicBool::new(false),
         }))
     }
 
@@ -150,6 +156,7 @@ impl FileUploadSession {
             current_session_data: Mutex::new(DataAggregator::default()),
             deduplication_metrics: Mutex::new(DeduplicationMetrics::default()),
             xorb_upload_tasks: Mutex::new(JoinSet::new()),
+            xorb_upload_failed: AtomicBool::new(false),
         }))
     }
 
@@ -163,12 +170,28 @@ impl FileUploadSession {
         SingleFileCleaner::new(file_name, self.clone())
     }
 
+    /// An upload failure is final for the session: the error is reported again by every later registration and by
+    /// finalize, not only by the call that happened to observe it first.
+    fn check_no_xorb_upload_failed(&self) -> Result<()> {
+        if self.xorb_upload_failed.load(Ordering::SeqCst) {
+            return Err(DataProcessingError::UploadTaskError(
+                "a xorb upload of this session failed earlier; the session cannot be completed".to_owned(),
+            ));
+        }
+        Ok(())
+    }
+
     pub(crate) async fn register_new_xorb_for_upload(self: &Arc<Self>, xorb: RawXorbData) -> Result<()> {
+        self.check_no_xorb_upload_failed()?;
+
         // First check the current xorb upload tasks to see if any can be cleaned up.
         {
             let mut upload_tasks = self.xorb_upload_tasks.lock().await;
             while let Some(result) = upload_tasks.try_join_next() {
-                result??;
+                if let Err(e) = result.map_err(DataProcessingError::from).and_then(|r| r) {
+                    self.xorb_upload_failed.store(true, Ordering::SeqCst);
+                    return Err(e);
+                }
             }
         }
 
@@ -275,6 +298,8 @@ impl FileUploadSession {
 
     /// Finalize everthing.
     async fn finalize_impl(self: Arc<Self>, return_files: bool) -> Result<(DeduplicationMetrics, Vec<MDBFileInfo>)> {
+        self.check_no_xorb_upload_failed()?;
+
         // Register the remaining xorbs for upload.
         let data_agg = take(&mut *self.current_session_data.lock().await);
         self.process_aggregated_data_as_xorb(data_agg).await?;
